@@ -17,7 +17,9 @@ __all__ = [
 ]
 
 import colorsys
+import math
 import re
+import sys
 import urllib.parse
 
 import cssutils
@@ -580,7 +582,14 @@ class DimensionValue(Value):
             if '.' in v:
                 val = float(sign + v)
             else:
-                val = int(sign + v)
+                try:
+                    val = int(sign + v)
+                except ValueError:
+                    # more digits than Python converts to an int
+                    val = float(sign + v)
+            if val in (float('inf'), float('-inf')):
+                # out of range: clamped to the largest supported number
+                val = math.copysign(sys.float_info.max, val)
 
             dim = None
             if d:
